@@ -1,3 +1,4 @@
+import Proofs.C09Pins
 import GoawkModel.C09
 import GoawkModel.C09Spec
 import Proofs.C09
@@ -534,3 +535,13 @@ example : runUses dg0 false [] [([37, 122], [num 1]), ([37, 122], [num 1]), ([37
     = [.err (.badVerb 122), .err (.badVerb 122), .ok [49, 50], .err (.argCount 1 2)] := by decide
 
 end GoawkModel.C09.Props
+
+/-! ## Pinned source text (regenerated tie; extract/pins.go, tools/repin.py)
+An edit of one of these functions in /repo breaks the matching obligation: the model below was written from the text
+in `Proofs.C09Pins` and has to be compared with the new text before it is re-pinned. -/
+namespace GoawkModel.Pins.C09
+theorem pin_parseFmtTypes : Generated.C09Pins.parseFmtTypes = Expected.parseFmtTypes := rfl
+theorem pin_sprintf : Generated.C09Pins.sprintf = Expected.sprintf := rfl
+theorem pin_list : Generated.C09Pins.pinned = Expected.pinned := rfl
+end GoawkModel.Pins.C09
+-- end of pinned source text
